@@ -143,4 +143,12 @@ CHECKS['C04'] = {
             'process/remote children always succeeds, False only while the child exists, and no signal to the caller.',
     'note': 'This is the one property where wall-clock is the verdict; the bound only separates bounded from blocked. Thread kinds are limited to cooperative/swallowing targets with force=False.',
 }
+CHECKS['C05'] = {
+    'engine': 'OS', 'level': 'exploration', 'design_ref': 'DESIGN.md 4 (C05)',
+    'technique': 'model-based property testing: generated operation sequences (enqueue / next_result / call / close / wait / late enqueue / read past end) on real persistent workers checked step by step against a 15-line reference model of the merge rule and the result stream',
+    'text': 'Persistent thread/process/remote workers with generated list-or-tuple defaults and kwargs run an argument-echoing, argument-mutating target; every value '
+            'read is compared with the reference model on pristine deep copies, the stream after wait() must be exactly the remaining results then queue.Empty forever, '
+            'result == accepted == delivered, enqueue after close raises WorkerClosedError.',
+    'note': 'Op lists are interpreted against model preconditions (inapplicable ops are skipped) instead of Hypothesis rule-based machines, so a case is a plain replayable JSON list; wait() with unread 1 MiB results is excluded (documented deadlock).',
+}
 NOT_APPLICABLE = {}
